@@ -5,6 +5,7 @@ fn main() {
     let args = Args::parse();
     let code = match args.prop.as_str() {
         "C01" | "C02" | "C03" | "C06" | "C07" | "C08" => e1::run(&args),
+        "C31" => e5::c31(&args),
         other => {
             eprintln!("no check for {other}");
             2
